@@ -2,6 +2,7 @@ package main
 
 import (
 	"fmt"
+	"go/ast"
 	"go/token"
 	"go/types"
 	"sort"
@@ -308,4 +309,74 @@ func ruleR14b(c *Ctx) {
 	if nquoted == 0 {
 		c.ok("R14c", "soyjs#quoted-not-read", token.NoPos, "StringNode.Quoted is never read by the generator")
 	}
+}
+
+// R14d: the generator never recovers a position inside a name by searching the name for one of its own
+// pieces (strings.Index(name, segment) with segment taken from strings.Split(name, ...)): the search finds
+// the first occurrence of the text, which is another segment whenever the text repeats (a.b.a, shop.sh),
+// so the prefix declared for the namespace is the wrong one and the template's function is never defined.
+func ruleR14d(c *Ctx) {
+	p := c.pkg("soyjs")
+	if p == nil {
+		return
+	}
+	info := p.TypesInfo
+	nsplit, nbad := 0, 0
+	for _, fd := range c.allFuncDecls("soyjs") {
+		ast.Inspect(fd.Body, func(x ast.Node) bool {
+			rs, ok := x.(*ast.RangeStmt)
+			if !ok || rs.Value == nil {
+				return true
+			}
+			call, ok := ast.Unparen(rs.X).(*ast.CallExpr)
+			if !ok || len(call.Args) < 1 {
+				return true
+			}
+			cal := calleeFunc(call, info)
+			if cal == nil || cal.Pkg() == nil || cal.Pkg().Path() != "strings" || !strings.HasPrefix(cal.Name(), "Split") && cal.Name() != "Fields" {
+				return true
+			}
+			nsplit++
+			whole := exprKey(call.Args[0])
+			vid, ok := rs.Value.(*ast.Ident)
+			if !ok {
+				return true
+			}
+			piece := info.Defs[vid]
+			ast.Inspect(rs.Body, func(y ast.Node) bool {
+				c2, ok := y.(*ast.CallExpr)
+				if !ok || len(c2.Args) != 2 {
+					return true
+				}
+				cal2 := calleeFunc(c2, info)
+				if cal2 == nil || cal2.Pkg() == nil || cal2.Pkg().Path() != "strings" || !strings.Contains(cal2.Name(), "Index") {
+					return true
+				}
+				if id, ok := ast.Unparen(c2.Args[1]).(*ast.Ident); ok && info.Uses[id] == piece && exprKey(c2.Args[0]) == whole {
+					nbad++
+					c.bad("R14d", fmt.Sprintf("%s searches %s for its own piece#%d", c.declKey("soyjs", fd), whole, nbad), c2.Pos(),
+						"the position of a piece of "+whole+" is recovered by searching "+whole+" for the piece's text: when the text occurs earlier in the name the wrong position is found, so the generated declarations name the wrong prefix")
+				}
+				return true
+			})
+			return true
+		})
+	}
+	// the namespace walk itself must be present and cut the name at positions found by a forward search
+	// for the separator that starts after the previous cut
+	fd := c.mustFunc("soyjs", "state.visitNamespace")
+	if fd == nil {
+		return
+	}
+	cuts := 0
+	ast.Inspect(fd.Body, func(x ast.Node) bool {
+		if se, ok := x.(*ast.SliceExpr); ok {
+			if fv := fieldOf(se.X, info); fv != nil && fv.Name() == "Name" {
+				cuts++
+			}
+		}
+		return true
+	})
+	c.floor("R14d", "cuts of the namespace name in visitNamespace", 1, cuts)
+	_ = nsplit
 }
